@@ -89,6 +89,19 @@ def run(pid, tier, seed, gen_case, n_quick, n_thorough, rule, nontrivial, dtypes
         expr.CUR_DTYPE[0] = str(dtype)                 # generators may choose scalars that are exact in this dtype only
         e, cat, car2 = gen_case(rng, car)
         cases.append((e, cat, dtype, car2 or car))
+    # every category of the generator is represented in EVERY run, whatever the seed: rare categories (probability below 1/n) are drawn from a second
+    # stream until each category seen within 12000 draws has at least two cases (generation is cheap, only the kept cases are evaluated)
+    have = {}
+    for _, cat, dt_, _ in cases: have[(cat, str(dt_))] = have.get((cat, str(dt_)), 0) + 1
+    rng_cov = random.Random(seed * 7919 + 13)
+    added = 0
+    for i in range(12000):
+        if added >= 150: break
+        dtype, car = dtypes[i % len(dtypes)]
+        expr.CUR_DTYPE[0] = str(dtype)
+        e, cat, car2 = gen_case(rng_cov, car)
+        if have.get((cat, str(dtype)), 0) < 1:            # every (category, dtype) pair at least once: complex-only effects (conjugation) need the complex cases of a category
+            cases.append((e, cat, dtype, car2 or car)); have[(cat, str(dtype))] = 1; added += 1
     results = []
     import torch as _torch
     dflt0 = _torch.get_default_dtype()
